@@ -894,6 +894,7 @@ class C17(E2EProp):
 
 class C18(E2EProp):
     id = "C18"; module = "Adsb.Theorems.C18"; design_ref = "5/C18"
+    modules = ["Adsb.Theorems.C18", "Adsb.Theorems.C18b"]
     deps = []
     rule = ("radar under a pty (40x140 / 50x160): feeds of 0-8 aircraft in the four quadrants around the receiver (positions, identifications, velocities, "
             "other formats, malformed lines) with random view controls (keys, clicks, drags, scrolls - everything but quit) interleaved; then the Airplanes "
@@ -904,9 +905,11 @@ class C18(E2EProp):
             "scroll / reset batches, plus the conventions stated outright (receiver at the centre, north above, east right, doubled offset = doubled "
             "distance); non-trivial = distinct scenarios")
     claim = ("rows = records in order, cells = the record's data, title = count, totals = times newly added / peak count, data independent of every "
-             "operator action (theorems over the loop model); table, titles, totals and label placement of the real binary agree with the model")
+             "operator action (theorems over the loop model); map projection over the reals (Theorems/C18b): view centre at the origin, x offset = (lon-lon0)*scale/360, "
+             "north is up and y strictly monotone in latitude (Mercator function proved strictly increasing on (-90,90)), zoom scales and pan translates every target alike; "
+             "table, titles, totals and label placement of the real binary agree with the model")
     note = ("partial: number formatting ({:.3}), ratatui's Table / Canvas widgets and the f64 evaluation of the Mercator formula are observed on the "
-            "screen (cell tolerance 1), not proved; the order / sign theorems of the projection over the reals are in Adsb/Theorems/C18Proj.lean when built")
+            "screen (cell tolerance 1), not proved (the projection theorems are over the reals)")
     def scenarios(self, rng, tier, report):
         import show
         show.check_table_and_stats(rng, tier, report)
